@@ -1135,6 +1135,14 @@ func (vm *VirtualMachine) cloneCallAsync(
 	if err != nil {
 		return nil, err
 	}
+	// Halt the clone when the context is cancelled, like start() does for the
+	// VM that was given the context.
+	if doneChan := ctx.Done(); doneChan != nil {
+		go func() {
+			<-doneChan
+			atomic.StoreInt32(&clone.halt, 1)
+		}()
+	}
 	return object.NewThread(clone.initContext(ctx), fn, args), nil
 }
 
